@@ -6,12 +6,57 @@ ROOT = os.path.dirname(os.path.dirname(os.path.abspath(__file__)))
 
 # id -> (level, technique, level text, level note, design ref)
 CHECKS = {
- "C01": ("exploration", "runtime monitoring: reference-model monitor (Go slice) on every return value + structural walker after every operation + cold reopen",
+ "C01": ("exploration", "runtime monitoring: reference-model monitor (Go slice) on every return value + independent structural walker after every operation + cold reopen from registers",
          "Seeded hostile operation histories on the real library; every returned element/previous element/count/type/error is compared with an in-memory sequence after each operation, the slab tree is walked by an independent monitor, and the array is reopened by root id warm and from registers only. Held-on-what-was-observed, not a proof.",
          "Trusts the harness' model/walker, test_utils value types, the Go toolchain. Covers only generated histories and the slab sizes drawn.", "DESIGN.md §4 C01"),
  "C02": ("exploration", "runtime monitoring: reference-model monitor (Go map) on every return value + structural walker incl. digest-of-key filing check + cold reopen",
          "Seeded hostile histories on the real ordered map under the default and an order-revealing digester; every result compared with a dictionary model, structure and digest filing walked after each operation.",
          "Trusts the harness' model/walker and test_utils key types. Covers only generated histories.", "DESIGN.md §4 C02"),
+ "C03": ("exploration", "runtime monitoring: ledger-proxy monitor (no write outside commit, no zero-address write) + crash point after every operation + cold rebuild from registers vs model snapshot of the last commit",
+         "The ledger is the harness' own recording BaseStorage; a crash is taken after every operation by comparing the register map byte-for-byte with the last commit and rebuilding every live root from a copy of the registers with a brand-new storage.",
+         "A crash is modelled as abandoning the in-memory storage; ledger calls are atomic. Covers generated histories and commit placements.", "DESIGN.md §4 C03"),
+ "C05": ("exploration", "runtime monitoring: independent structural invariant walker at quiescent points after every operation under a hostile size workload + exhaustive sweep of all 32513 slab-size settings",
+         "Independent walker over live slabs (size bands, element limits, header/child agreement, prefix sums, digests, sibling links, root fan-out) after every operation of hostile-size histories; the threshold arithmetic is checked for every legal slab size (exhaustive).",
+         "Size constants restated in the harness are cross-checked against real encodings by C06. Histories are sampled.", "DESIGN.md §4 C05"),
+ "C06": ("exploration", "runtime monitoring: byte-level monitor - every dirtied slab is encoded after every operation and the register is split with an independent CBOR decoder; equality with the reported size incl. the exact compact-map saving",
+         "Reported sizes are compared by EQUALITY with the bytes actually written for every dirtied slab after every operation and for every register at commits, including the two documented savings computed exactly.",
+         "Trusts the fxamacker/cbor stream decoder for splitting items. Histories are sampled.", "DESIGN.md §4 C06"),
+ "C07": ("exploration", "runtime monitoring: round-trip monitor - decode/re-encode byte identity, decoded-vs-live content comparison and independently computed header-flag truth for every dirtied slab and every committed register",
+         "Every slab state produced by the workloads is encoded, decoded, re-encoded and compared byte-for-byte and field-by-field; head flags are recomputed from content; in-repo serialization verifiers run as secondary oracle.",
+         "Only version-1 registers are produced by the library. Slab states are those reached by sampled histories.", "DESIGN.md §4 C07"),
+ "C08": ("exploration", "runtime monitoring: differential schedules - one history executed under 6 schedules of commit / drop-cache / reopen with model comparison in each and byte-equality of final registers across schedules",
+         "Each history runs under never-commit, commit-every-op, commit+drop-cache, full reopen, drop-cache-only and a mixed schedule; return values are checked against the model in every schedule and final registers must be byte-identical (content-identical for the composite-typed bucket).",
+         "Composite bucket decided at case creation. Histories and schedules are sampled.", "DESIGN.md §4 C08"),
+ "C09": ("exploration", "runtime monitoring: reachability monitor after every operation - ids resolvable in storage (universe recorded by a storage proxy) vs ids reached by an independent walk from live roots; same on registers after commits",
+         "The storage proxy records every id ever generated; after every operation the set of resolvable ids must equal the set reached from the live roots exactly once each; drained containers must occupy one slab.",
+         "The harness disposes of every storable handed back (like cmd/smoke). Histories are sampled.", "DESIGN.md §4 C09"),
+ "C10": ("exploration", "runtime monitoring: reference-model monitor from the ROOT after every child mutation through long-lived handles + inline-rule walker + cold rebuild at commits",
+         "72% of operations go through handles of nested containers (depth 3-5, wrapped/unwrapped, refreshed at PRNG times); after every operation the whole tree is compared with the model from the root incl. the inline rule and value ids; commits are rebuilt cold.",
+         "Canonical-handle discipline (one handle per container). Histories are sampled.", "DESIGN.md §4 C10"),
+ "C11": ("exploration", "runtime monitoring: reference-model monitor on former parent and detached child after every stale-handle mutation + byte-level sizes + reachability with detached roots + cold rebuild",
+         "Detached children are kept alive and mutated through stale handles while the parent moves on; parent and detached child are compared with independent models after every operation (content, structure, byte sizes, persisted form).",
+         "Self-overwrite with the same child object is not generated. Histories are sampled.", "DESIGN.md §4 C11"),
+ "C12": ("exploration", "runtime monitoring: reference-model monitor under an adversarial 4-level digester (all 256 alphabet profiles) with an executable prediction of every collision-limit refusal + no-trace check via storage proxy",
+         "All 4^4 per-level digest alphabets x limits; every insert of a new key is predicted by the limit rule and refusals must be typed fatal errors that leave no trace; dictionary semantics and group structure checked after every operation.",
+         "Nested maps use the default digester; only 4-level digesters. Histories are sampled.", "DESIGN.md §4 C12"),
+ "C13": ("exploration", "runtime monitoring: enumeration monitor - every iterator flavour compared element-by-element with the model's canonical order, mutation during mutable iteration, partial-load subsequence check and reverse pop on cold copies",
+         "At checkpoints of seeded histories every enumeration flavour, all/boundary ranges, invalid ranges, in-iteration overwrite and child mutation, partial loads and reverse bulk pop are compared with the order computed from the model (digest vector, then insertion sequence).",
+         "Insert/remove during mutable iteration is documented unsupported and not generated. States are sampled.", "DESIGN.md §4 C13"),
+ "C14": ("fault_enumeration", "runtime monitoring with fault injection at the ledger proxy: every write/delete position of every commit failed in turn (both failure modes, retry now / later, pairs), compared with a fault-free twin",
+         "For each commit of each short history every single failing position is enumerated (and all pairs for small commits) for both commit flavours and 1/2/8 workers; after each failure: error class, applied-or-still-pending, read-your-writes, model equality; after retry byte-equality with the fault-free twin.",
+         "numWorkers=0 outside the domain. Enumeration is complete per commit; histories are sampled.", "DESIGN.md §4 C14"),
+ "C15": ("exploration", "runtime monitoring: online checker of a three-layer overlay specification after every storage call with unique-version slabs; thorough = closure over the abstract state space of the real object",
+         "Immutable unique-version slabs make every read identify the write it observed; all observations are compared with a ledger/cache/write-set model after every step of random walks incl. injected commit faults; thorough explores the abstract state space of the real object to closure (exhaustive for 3 ids).",
+         "is-loaded asserted exactly only for documented transitions; cache-level observations after an ambiguous (applied-but-failed) ledger write are not asserted.", "DESIGN.md §4 C15"),
+ "C17": ("exploration", "runtime monitoring: reference-model + structural + byte-level + reachability monitors on bulk-built / copied / converted values, then a divergence phase with the other value re-checked after every step",
+         "Batch builds over many lengths and size profiles, the copy matrix with the predicate computed from the model, and byte conversions around the fast-path boundary; each result is fully verified, then mutated/disposed independently of its source.",
+         "Lengths and profiles are sampled (not all lengths).", "DESIGN.md §4 C17"),
+ "C18": ("fault_enumeration", "runtime monitoring: typed-error table + no-trace check via storage proxy + twin run without the rejected requests (register byte-equality) + enumeration of every callback/ledger-read failure position of cold lookups",
+         "25% of steps are invalid requests; each must return the specific error and category, issue no store/remove/id allocation, keep ancestors valid, and commit the same registers as the twin history; every ledger read / comparator / hash-input call of probed lookups is failed in turn and must surface as external error.",
+         "Enumeration complete over the call positions of the probed lookups; histories are sampled.", "DESIGN.md §4 C18"),
+ "C20": ("fault_enumeration", "runtime monitoring: corruption enumeration - every slab x {delete referenced, add unreferenced, double reference, foreign owner} x {ledger level, storage API uncommitted/committed} against CheckStorageHealth; GetAllChildReferences vs independent walk",
+         "For storages from valid histories the health check must accept (warm with pending writes, after commit, fresh+preloaded) and return the true roots, and must reject every enumerated single-slab corruption in every modality; the child-reference query is compared as multisets with an independent walk.",
+         "Storages over 70 slabs are sampled keeping every reference kind; index->child references are not byte-patchable for the foreign-owner kind.", "DESIGN.md §4 C20"),
 }
 
 NOT_YET = {}
